@@ -653,6 +653,9 @@ class UnionProxy:
     def __hash__(self) -> int:
         return hash(self.__target__)
 
+    def __bool__(self) -> bool:
+        return bool(self.__target__)
+
     def __getattr__(self, attr: str) -> Any:
         return getattr(self.__target__, attr)
 
